@@ -6,14 +6,17 @@ From PC Require Import Base.Atoms Base.Xml Base.Outcome Base.Py Model.LoadPrim M
 Import ListNotations.
 Local Open Scope nat_scope.
 
-(* numeric table (class of every TNum token), the document, what the implementation exposed *)
-Definition case := (list N * xml * V)%type.
+(* numeric table (class of every TNum token), the document as xml.etree reads it, optionally the same
+   bytes as xml.dom.minidom reads them (a second, independent tree builder: must be the same term up to
+   uids), what the implementation exposed *)
+Definition case := (list N * xml * option xml * V)%type.
 
-Definition model_view (c : case) : outcome V := let '(numtab, x, _) := c in load_doc numtab (erase_now x).
-Definition spec_view (c : case) : outcome V := let '(numtab, x, _) := c in read_doc numtab (erase_now x).
+Definition model_view (c : case) : outcome V := let '(numtab, x, _, _) := c in load_doc numtab (erase_now x).
+Definition spec_view (c : case) : outcome V := let '(numtab, x, _, _) := c in read_doc numtab (erase_now x).
 
 Definition case_ok (c : case) : bool :=
-  let '(_, _, seen) := c in
+  let '(_, x, dom, seen) := c in
+  match dom with Some y => xml_eqb x y | None => true end &&
   match model_view c, spec_view c with
   | Ok a, Ok b => V_eqb a seen && V_eqb b seen
   | _, _ => false
@@ -39,7 +42,7 @@ Fixpoint vdiff (a b : V) : option (list nat) :=
   | _, _ => if V_eqb a b then None else Some []
   end.
 Definition diagnose (c : case) : (nat * option (list nat) * nat * option (list nat)) :=
-  let '(_, _, seen) := c in
+  let '(_, _, _, seen) := c in
   let m := match model_view c with Ok a => (0, vdiff a seen) | Raise e => (exn_code e, None) end in
   let r := match spec_view c with Ok a => (0, vdiff a seen) | Raise e => (exn_code e, None) end in
   (fst m, snd m, fst r, snd r).
